@@ -193,5 +193,12 @@ func (r *Remote) Call(ctx context.Context, result interface{}, method string, pa
 	if err != nil {
 		return err
 	}
+	if resp.Response == nil {
+		// A message with our ID but neither a result nor an error.
+		return &ErrResponse{
+			Code:    ErrCodeInvalidRequest,
+			Message: "received a reply without result or error",
+		}
+	}
 	return resp.UnmarshalResult(result)
 }
